@@ -611,3 +611,26 @@ pub fn accum_from_stream_with_capacity<W: io::Write>(stream: W, memlimit: usize)
 pub fn accum_buf_len<W: io::Write>(a: &LzAccumBuffer<W>) -> usize {
     a.buf.len()
 }
+
+
+/// Stub for `LzCircularBuffer::from_stream`: same value, buffer with spare capacity (see
+/// accum_from_stream_with_capacity).
+pub fn circ_from_stream_with_capacity<W: io::Write>(stream: W, dict_size: usize, memlimit: usize) -> LzCircularBuffer<W> {
+    LzCircularBuffer {
+        stream,
+        buf: Vec::with_capacity(16),
+        dict_size,
+        memlimit,
+        cursor: 0,
+        len: 0,
+    }
+}
+pub fn circ_memlimit<W: io::Write>(b: &LzCircularBuffer<W>) -> usize {
+    b.memlimit
+}
+pub fn circ_dict_size<W: io::Write>(b: &LzCircularBuffer<W>) -> usize {
+    b.dict_size
+}
+pub fn circ_total<W: io::Write>(b: &LzCircularBuffer<W>) -> usize {
+    b.len
+}
